@@ -121,7 +121,8 @@ Section Incr.
     end.
 
   (* one visited tree: interval and the running sum while it is current *)
-  Record trec := mktr { tr_l : Q; tr_r : Q; tr_v : Q }.
+  (* tr_p: snapshot of parent[] while the tree is current *)
+  Record trec := mktr { tr_l : Q; tr_r : Q; tr_v : Q; tr_p : list Z }.
 
   (* the sweep over the trees; returns the visited trees (trace) *)
   Fixpoint sweep_trace (fuel : nat) (E : list edge) (I O : list Z) (L : Q)
@@ -136,7 +137,7 @@ Section Incr.
         let r1 := if (tj' <? Z.of_nat (length E))%Z then Qmin r0 (e_left (eget E (znth I tj' 0%Z))) else r0 in
         let t_right := if (tk' <? Z.of_nat (length E))%Z then Qmin r1 (e_right (eget E (znth O tk' 0%Z))) else r1 in
         match sweep_trace f E I O L tj' tk' t_right s2 with
-        | Some tr => Some (mktr t_left t_right (b_rs s2) :: tr)
+        | Some tr => Some (mktr t_left t_right (b_rs s2) (b_parent s2) :: tr)
         | None => None
         end
     end.
@@ -189,3 +190,77 @@ Fixpoint trec_tiles_b (t : list trec) (lo hi : Q) : bool :=
   end.
 Definition trace_tiles_b (tr : option (list trec)) (lo hi : Q) : bool :=
   match tr with Some t => trec_tiles_b t lo hi | None => false end.
+
+(* ---------- validity of the edge operations of a sweep (boolean, checked per run):
+   an edge is removed only where it currently is, and inserted only above a parentless
+   child below a strictly older in-range parent.  This is what a valid, indexed edge table
+   guarantees (properties C01 / C02). ---------- *)
+Definition inr_b (n : nat) (u : Z) : bool := (0 <=? u)%Z && (u <? Z.of_nat n)%Z.
+Definition remove_ok_b (n : nat) (e : edge) (s : bstate) : bool :=
+  inr_b n (e_child e) && (parent_of (b_parent s) (e_child e) =? e_parent e)%Z && negb (e_parent e =? NULL)%Z.
+Definition insert_ok_b (time : list Q) (n : nat) (e : edge) (s : bstate) : bool :=
+  inr_b n (e_child e) && inr_b n (e_parent e) && (parent_of (b_parent s) (e_child e) =? NULL)%Z
+  && Qltb (znth time (e_child e) 0) (znth time (e_parent e) 0).
+
+Section Ok.
+  Variable F : vec -> Q.
+  Variable time : list Q.
+  Variable n : nat.
+
+  Fixpoint drain_out_ok (fuel : nat) (E : list edge) (O : list Z) (tk : Z) (t_left : Q) (s : bstate) : bool :=
+    match fuel with
+    | O => true
+    | S f =>
+        if (tk <? Z.of_nat (length E))%Z && Qeq_bool (e_right (eget E (znth O tk 0%Z))) t_left
+        then remove_ok_b n (eget E (znth O tk 0%Z)) s
+             && drain_out_ok f E O (tk + 1)%Z t_left (remove_edge F (eget E (znth O tk 0%Z)) s)
+        else true
+    end.
+  Fixpoint drain_in_ok (fuel : nat) (E : list edge) (I : list Z) (tj : Z) (t_left : Q) (s : bstate) : bool :=
+    match fuel with
+    | O => true
+    | S f =>
+        if (tj <? Z.of_nat (length E))%Z && Qeq_bool (e_left (eget E (znth I tj 0%Z))) t_left
+        then insert_ok_b time n (eget E (znth I tj 0%Z)) s
+             && drain_in_ok f E I (tj + 1)%Z t_left (insert_edge F time (eget E (znth I tj 0%Z)) s)
+        else true
+    end.
+  Fixpoint sweep_ok (fuel : nat) (E : list edge) (I O : list Z) (L : Q)
+           (tj tk : Z) (t_left : Q) (s : bstate) : bool :=
+    if negb ((tj <? Z.of_nat (length E))%Z || Qltb t_left L) then true else
+    match fuel with
+    | O => true
+    | S f =>
+        let '(tk', s1) := drain_out F (S (length E)) E O tk t_left s in
+        let '(tj', s2) := drain_in F time (S (length E)) E I tj t_left s1 in
+        let r0 := L in
+        let r1 := if (tj' <? Z.of_nat (length E))%Z then Qmin r0 (e_left (eget E (znth I tj' 0%Z))) else r0 in
+        let t_right := if (tk' <? Z.of_nat (length E))%Z then Qmin r1 (e_right (eget E (znth O tk' 0%Z))) else r1 in
+        drain_out_ok (S (length E)) E O tk t_left s
+        && drain_in_ok (S (length E)) E I tj t_left s1
+        && sweep_ok f E I O L tj' tk' t_right s2
+    end.
+End Ok.
+
+(* per-run checks of the remaining hypotheses of FullBranchProofs.branch_incremental_is_branch_stat:
+   the weights are well-formed, and the trees the sweep visits are the segments (marginal
+   forests of the table) the specification is evaluated on *)
+Definition wok_b (k n : nat) (W : weights) : bool :=
+  forallb (fun sw => Nat.eqb (length (snd sw)) k && inr_b n (fst sw)) W
+  && (fix nodup (l : list Z) : bool :=
+        match l with [] => true | x :: t => negb (existsb (Z.eqb x) t) && nodup t end) (map fst W).
+Fixpoint zlist_eqb' (a b : list Z) : bool :=
+  match a, b with
+  | [], [] => true
+  | x :: a', y :: b' => (x =? y)%Z && zlist_eqb' a' b'
+  | _, _ => false
+  end.
+Fixpoint trec_segs_b (t : list trec) (segs : list seg) : bool :=
+  match t, segs with
+  | [], [] => true
+  | x :: t', s :: segs' => Qeq_bool (tr_l x) (s_left s) && Qeq_bool (tr_r x) (s_right s)
+                           && zlist_eqb' (tr_p x) (s_parent s) && trec_segs_b t' segs'
+  | _, _ => false
+  end.
+Definition trace_segs_b (tr : option (list trec)) (segs : list seg) : bool :=
+  match tr with Some t => trec_segs_b t segs | None => false end.
